@@ -110,6 +110,8 @@ pub fn stmts() -> ZooLang {
             "a + (1); f(b, (2)); (c) * (d + 1);",
             // extras between every two adjacent children of a fixed sequence
             "let a /*c*/ = 1; let b = #d\n 2; a + /*c*/ b; f /*c*/ (x);",
+            // a let whose value spells its name, between others
+            "let a = a; let b = a; let c = c;",
             // a rule that ends in a repetition
             "use a", "use a b c d", "use a b c d e f g h  ", "use a b; use c d e\nuse use", "{ use a b c d }",
         ],
